@@ -291,7 +291,7 @@ theorem evalIn_is_or (e : Expr) (v : Value) (he : eval O env e = .ok v) :
             by_cases hc : (compareValues a' b' == Ordering.eq) = true
             · simp [hc]
             · have hc' : (compareValues a' b' == Ordering.eq) = false := by simpa using hc
-              simp only [hc', Bool.false_eq_true, if_false, condHolds_bool, Bool.not_false]
+              simp only [hc', Bool.false_eq_true, if_false, condHolds_bool]
               exact hrest a
 
 /-- **`x IN (v1, …, vn)` means `x = v1 OR … OR x = vn`**: the evaluator gives `IN` exactly the outcome it gives the
@@ -370,14 +370,14 @@ theorem andOfNe_value (e : Expr) (v : Value) (he : eval O env e = .ok v) :
     by_cases hn : (!v.isNull && !x.isNull) = true
     · simp only [hn, if_true, applyCmp, Bool.true_and]
       by_cases hne : (compareValues v x != Ordering.eq) = true
-      · simp only [hne, Value.truthy, if_true]
+      · simp only [hne]
         have := ih hcs
         rw [this]
-        simp [Outcome.bind, Value.truthy, notInSpec]
+        simp [notInSpec]
       · have : (compareValues v x != Ordering.eq) = false := by simpa using hne
-        simp [this, Value.truthy]
+        simp [this]
     · have : (!v.isNull && !x.isNull) = false := by simpa using hn
-      simp [this, Value.truthy]
+      simp [this]
 
 /-- `x NOT IN (literals)` IS the AND-chain of `x != literal`, when every literal is comparable with `x` -/
 theorem notin_is_and_chain (e : Expr) (v : Value) (x : Value) (xs : List Value) (he : eval O env e = .ok v)
